@@ -171,58 +171,46 @@ def run(pid: str, tier: str, seed: int, selftest=False, replay=None) -> int:
     for k in range(150 if quick else 3000):
         rank = rng.choice([1, 2, 2, 3])
         el, w = rng.choice([("i8", 1), ("i16", 2), ("i32", 4), ("i64", 8)])
-        dyn0 = rng.random() < 0.3
-        dims_txt, dims_rec, shape = [], [], []
-        cur = 1
+        # any subset of the dimensions has a dynamic outermost bound (static steps: fixed pitch); every dynamic dimension gets its own
+        # run-time size, the steps are laid out for exactly those sizes (plus gaps), so the run-time layout is a valid one
+        dyn_dims = [d for d in range(rank) if rng.random() < 0.3]
         order = list(range(rank))
         rng.shuffle(order)
         levels = {}
         for d in range(rank):
             depth = rng.choice([1, 2, 2])
-            bounds = [rng.choice([2, 3, 4]) for _ in range(depth)]
-            levels[d] = bounds
-        steps = {}
-        flat = [(d, j) for d in order for j in reversed(range(len(levels[d])))]
-        for (d, j) in flat:
+            levels[d] = [rng.choice([2, 3, 4]) for _ in range(depth)]
+        for d, nv in zip(dyn_dims, rng.sample([2, 3, 5, 7], len(dyn_dims))):
+            levels[d][0] = nv
+        steps, cur = {}, 1
+        for (d, j) in [(d, j) for d in order for j in reversed(range(len(levels[d])))]:
             steps[(d, j)] = cur
             cur *= levels[d][j]
             if rng.random() < 0.3:
                 cur += rng.choice([1, 2, 5])
-        nval = rng.choice([2, 3, 5])
+        dims_txt, dims_rec, shape, sizes = [], [], [], []
         for d in range(rank):
-            bs = list(levels[d])
-            dynamic = dyn0 and d == 0
-            if dynamic:
-                inner = 1
-                for b in bs[1:]:
-                    inner *= b
-                btxt = ["?"] + [str(b) for b in bs[1:]]
-                bs[0] = nval
-                shape.append(None)
-            else:
-                btxt = [str(b) for b in bs]
-                p = 1
-                for b in bs:
-                    p *= b
-                shape.append(p)
+            bs = levels[d]
+            btxt = [("?" if (j == 0 and d in dyn_dims) else str(b)) for j, b in enumerate(bs)]
+            p = 1
+            for b in bs:
+                p *= b
+            shape.append(None if d in dyn_dims else p)
+            sizes.append(p)
             dims_txt.append("[" + ", ".join(btxt) + "] -> (" + ", ".join(str(steps[(d, j)]) for j in range(len(bs))) + ")")
             dims_rec.append([{"b": bs[j], "s": steps[(d, j)]} for j in range(len(bs))])
         off = rng.choice([0, 0, 3, 8])
-        # the dynamic outermost tile must have the largest step for the layout to be a valid TSL
-        if dyn0 and steps[(0, 0)] != max(steps.values()):
-            continue
         L = {"dims": dims_rec, "off": off}
-        inner0 = 1
-        for lv in dims_rec[0][1:]:
-            inner0 *= lv["b"]
         shp = "x".join("?" if s is None else str(s) for s in shape)
         lay = ", ".join(dims_txt) + (f", offset: {off}" if off else "")
         mt = f'memref<{shp}x{el}, #tsl.tsl<{lay}>, "L1">'
-        dynarg = "(%nn)" if dyn0 else "()"
+        fargs = ", ".join(f"%n{d} : index" for d in dyn_dims)
+        adds = "\n".join(f"    %nn{d} = arith.addi %n{d}, %z : index" for d in dyn_dims)
+        dynarg = "(" + ", ".join(f"%nn{d}" for d in dyn_dims) + ")"
         text = f"""builtin.module {{
-  func.func public @f(%n : index) {{
+  func.func public @f({fargs}) {{
     %z = arith.constant 0 : index
-    %nn = arith.addi %n, %z : index
+{adds}
     %m = memref.alloc{dynarg} {{alignment = 64 : i64}} : {mt}
     "test.op"(%m) : ({mt}) -> ()
     func.return
@@ -243,7 +231,7 @@ def run(pid: str, tier: str, seed: int, selftest=False, replay=None) -> int:
             rep.violation(name, f"memref-to-snax raised {type(e).__name__}: {str(e)[:160]} for {mt}", {"source": text})
             continue
         img = image_of(funcs_of(m)["f"])
-        scases.append({"name": name, "A": img, "B": img, "argdom": [[nval * inner0 if dyn0 else 0]], "opqdom": [[0]],
+        scases.append({"name": name, "A": img, "B": img, "argdom": [[sizes[d]] for d in dyn_dims], "opqdom": [[0]],
                        "extra": {"L": L, "w": w}, "text": text, "after": str(funcs_of(m)["f"])[:2500], "type": mt})
     for lo in range(0, len(scases), 400):
         chunk = scases[lo:lo + 400]
